@@ -276,19 +276,33 @@ def run(F, rep):
     sw_calls = [c for c in am.walk() if c.get('k') == 'Call' and c.get('fn') == 'swapLeftAndRightChildren']
     if len(sw_calls) != 1:
         raise AnalysisBroken('analyseModel: swapLeftAndRightChildren call vanished (%d)' % len(sw_calls))
-    conds = [cnd for cnd, br, st in enclosing_conditions(am, sw_calls[0]) if br == 'then' and any(x.get('k') == 'Call' and x.get('fn', '').startswith('variableOn') for x in walk(cnd))]
+    from engines import single_def as _sd3
+
+    def _expanded(cnd):
+        out = [cnd]
+        for x in walk(cnd):
+            if x.get('k') == 'Ref' and x.get('dk') == 'local':
+                i_ = _sd3(am, x.get('d'))
+                if i_ is not None:
+                    out += _expanded(i_)
+        return out
+    conds = [cnd for cnd, br, st in enclosing_conditions(am, sw_calls[0]) if br == 'then' and any(x.get('k') == 'Call' and (x.get('fn', '').startswith('variableOn') or x.get('fn') == 'rightChild') for e_ in _expanded(cnd) for x in walk(e_))]
     if len(conds) != 1:
-        raise AnalysisBroken('analyseModel: the condition of the swap no longer consults variableOnRhs')
+        raise AnalysisBroken('analyseModel: the condition of the swap was not found (it consults neither variableOnRhs nor the right-hand side)')
 
     def ev(f, e, st, depth=0):
         k = e.get('k')
         c = e.get('c', [])
         if depth > 8:
             raise AnalysisBroken('C03.L1: condition too deep')
-        if k == 'Paren' and c:
+        if k in ('Paren', 'Cast', 'Construct') and len(c) == 1:
             return ev(f, c[0], st, depth)
         if k == 'Bool':
             return bool(e.get('v'))
+        if k == 'Ref' and e.get('dk') == 'local' and _sd3(f, e.get('d')) is not None:
+            return ev(f, _sd3(f, e.get('d')), st, depth + 1)
+        if k == 'Cond' and len(c) == 3:
+            return ev(f, c[1], st, depth + 1) if ev(f, c[0], st, depth + 1) else ev(f, c[2], st, depth + 1)
         if k == 'Bin' and e.get('op') == '&&':
             return ev(f, c[0], st, depth) and ev(f, c[1], st, depth)
         if k == 'Bin' and e.get('op') == '||':
@@ -310,18 +324,18 @@ def run(F, rep):
                     node = 'rhs' if 'rightChild()' in t or t.startswith('astChild') else None
                     if node is None:
                         raise AnalysisBroken('C03.L1: type of an unexpected node is tested: %s' % t)
-                    kind = {'CI_same': 'CI', 'DIFF_same': 'DIFF', 'other': '#'}[st['rhs']]
+                    kind = {'CI_same': 'CI', 'DIFF_same': 'DIFF', 'DIFF_other': 'DIFF', 'other': '#'}[st['rhs']]
                     v = kind == en[0]['n']
                     return v if e['op'] == '==' else not v
         if k == 'Call' and e.get('opc') == '==' and 'name()' in render(e):
-            return st['rhs'] != 'other'        # the names agree exactly in the *_same shapes
+            return st['rhs'] in ('CI_same', 'DIFF_same')        # the names agree exactly in the *_same shapes
         if k == 'Call' and not e.get('opc') and e.get('fn', '').startswith('variableOn'):
             g = F.funcs.get(e.get('ck'))
             if g is None:
                 raise AnalysisBroken('C03.L1: %s not resolved' % e.get('fn'))
             sws = [x for x in g.walk() if x.get('k') == 'Switch']
             if sws:
-                kind = {'CI_same': 'CI', 'DIFF_same': 'DIFF', 'other': None}[st['rhs']]
+                kind = {'CI_same': 'CI', 'DIFF_same': 'DIFF', 'DIFF_other': 'DIFF', 'other': None}[st['rhs']]
                 chosen = None
                 dflt = None
                 for cs in walk(sws[0]):
@@ -342,10 +356,10 @@ def run(F, rep):
                 raise AnalysisBroken('C03.L1: the swap consults the left-hand side')
             return ev(g, rets[0]['c'][0], st, depth + 1)
         raise AnalysisBroken('C03.L1: cannot interpret `%s`' % render(e)[:70])
-    want = {('ODE', 'CI_same'): False, ('ODE', 'DIFF_same'): True, ('OTHER', 'CI_same'): True, ('ODE', 'other'): False, ('OTHER', 'other'): False}
+    want = {('ODE', 'CI_same'): False, ('ODE', 'DIFF_same'): True, ('ODE', 'DIFF_other'): False, ('OTHER', 'CI_same'): True, ('ODE', 'other'): False, ('OTHER', 'other'): False}
     for (eqt, rhs), w in want.items():
         got = ev(am, conds[0], {'eq': eqt, 'rhs': rhs})
-        what = {'CI_same': 'the variable itself', 'DIFF_same': 'the derivative of the variable', 'other': 'something else'}[rhs]
+        what = {'CI_same': 'the variable itself', 'DIFF_same': 'the derivative of the variable', 'DIFF_other': 'the derivative of ANOTHER variable', 'other': 'something else'}[rhs]
         rep.check(got == w, 'C03.L1', '%s|rhs=%s' % (eqt, rhs), am.where(sw_calls[0]),
                   'for %s equation whose right-hand side is %s the sides are %s, but the unknown is %s' % ('an ODE' if eqt == 'ODE' else 'a non-ODE', what, 'swapped' if got else 'not swapped', 'on the left' if not w else 'on the right'),
                   'swapped' if w else 'left as written')
@@ -370,6 +384,34 @@ def run(F, rep):
     # ------------------------------------------------------------------ H: no generator state survives between calls (clause shared with C12)
     import c12
     c12.rule_h1(F, rep, 'C03.H1', [st for st in c12.STATE if st[0] == 'Generator::GeneratorImpl'])
+
+    # ------------------------------------------------------------------ T: the AST is a tree with consistent parent links
+    rep.rule('C03.T1', 'wherever analyser.cpp links an existing node Y into a node X (X->mOwnedLeftChild/mOwnedRightChild = Y), Y is told so (Y->mParent = X, or Y was populated with parent X): scaleAst() replaces a scaled node '
+                       'in ITS parent, so a node whose parent link points elsewhere makes the scaling drop what lies between (a + b + c with c scaled loses b)')
+    n_t1 = 0
+    for g in F.funcs.values():
+        if not g.file.endswith('/analyser.cpp'):
+            continue
+        asg = [a for a in g.walk() if ((a.get('k') == 'Call' and a.get('opc') == '=') or (a.get('k') == 'Bin' and a.get('op') == '=')) and a.get('c') and a['c'][0].get('k') == 'Member']
+        for a in asg:
+            lhs, rhs = a['c'][0], a['c'][1]
+            if lhs.get('n') not in ('mOwnedLeftChild', 'mOwnedRightChild'):
+                continue
+            r_ = rhs
+            while r_.get('k') in ('Cast', 'Construct', 'Temp') and len(r_.get('c', [])) == 1:
+                r_ = r_['c'][0]
+            if r_.get('k') != 'Ref':
+                continue    # a node created on the spot
+            owner = render(lhs['c'][0]['c'][0]) if lhs.get('c') and lhs['c'][0].get('c') else None
+            if owner is None:
+                continue
+            n_t1 += 1
+            child = render(r_)
+            told = [x for x in asg if x['c'][0].get('n') == 'mParent' and render(x['c'][0]).startswith(child + '->') and render(x['c'][1]) == owner]
+            populated = [c_ for c_ in g.walk() if c_.get('k') == 'Call' and c_.get('fn') == 'populate' and render(c_['c'][0]).startswith(child + '->') and render(c_['c'][-1]) == owner]
+            rep.check(bool(told) or bool(populated), 'C03.T1', '%s|%s' % (g.short.split('::')[-1], render(a)[:60]), g.where(a), '%s links `%s` under `%s` but never sets %s->mParent to %s' % (g.short, child, owner, child, owner), 'parent link set')
+    if n_t1 < 4:
+        raise AnalysisBroken('C03.T1: only %d links of existing nodes found in analyser.cpp (7 confirmed)' % n_t1)
 
     # ------------------------------------------------------------------ Q: late requalification of variable-based constants
     import requalify
